@@ -66,6 +66,13 @@ class Context:
     def note(self, text):
         self.notes.append(text)
 
+    def stage(self, name):
+        """Record the wall time of the stage that just ended."""
+        now = time.time()
+        last = getattr(self, "_stage_t", self.start)
+        self.extra.setdefault("stage_wall_s", {})[name] = round(now - last, 1)
+        self._stage_t = now
+
     # -- verdicts --------------------------------------------------------
     def violation(self, what, replay):
         """Record a violation; `replay` is a JSON-able description of the case."""
